@@ -358,8 +358,45 @@ class C16(Prop):
             probes.append(p)
             if p["fn"] in RANGE_FNS and len(p["args"]) == 2:
                 recent.append(p)
-        case["probes"] = probes
+        case["probes"] = probes + self.gen_cache_block(rng.fork("cachefam"), case)
         return case
+
+    # ---- cache-key confusion family: for every hash function, two calls in one scan whose keys collide when one of
+    # them is keyed by another pair among (offset, size), (offset, end), (end, size), (size, offset), (end, offset);
+    # both orders, offset != 0
+    def gen_cache_block(self, rng, case):
+        if not rng.chance(1, 3):
+            return []
+        if case["layout"] is None:
+            lo, ln = 0, len(case["mem"]) // 2
+        else:
+            if case.get("mode") != "legacy" or not case["layout"] or case["layout"][0]["start"] > 16:
+                return []
+            lo, ln = case["layout"][0]["start"], len(case["mem"]) // 2
+        if ln < 12:
+            return []
+        reps = {"A": lambda o, n: (o, n), "B": lambda o, n: (o, o + n), "C": lambda o, n: (o + n, n),
+                "D": lambda o, n: (n, o), "E": lambda o, n: (o + n, o)}
+        inv = {"A": lambda x, y: (x, y), "B": lambda x, y: (x, y - x), "C": lambda x, y: (x - y, y),
+               "D": lambda x, y: (y, x), "E": lambda x, y: (y, x - y)}
+        out = []
+        fns = rng.shuffle(["hash.md5", "hash.sha1", "hash.sha256"]) + [rng.choice(["hash.crc32", "hash.checksum32"])]
+        for fn in fns:
+            for _ in range(6):
+                o1 = lo + rng.range(1, min(8, ln // 3))
+                n1 = rng.range(1, max(1, min(20, ln // 2)))
+                a, b = rng.choice(["A", "B", "C", "D", "E"]), rng.choice(["A", "B", "C", "D", "E"])
+                if a == b:
+                    continue
+                o2, n2 = inv[b](*reps[a](o1, n1))
+                if o2 <= 0 or n2 < 0 or (o2, n2) == (o1, n1):
+                    continue
+                pair = [{"fn": fn, "args": [{"i": o1}, {"i": n1}]}, {"fn": fn, "args": [{"i": o2}, {"i": n2}]}]
+                if rng.chance(1, 2):
+                    pair.reverse()
+                out += pair
+                break
+        return out
 
     # ---- huge periodic inputs (sums beyond 2^32): described by pattern x repeat, expanded by the harness
     HUGE_PATTERNS = ["ff", "ff00fffffeff", "ffffff000000b504f3b504f3", "ff80ff01ffffc0", "fe",
